@@ -404,7 +404,9 @@ def make_body(case):
     save = case.get('save')
     path = None
     if save:
-        path = os.path.join(tmpdir(), 'g_%d.%s' % (os.getpid(), save))
+        # the name of the target may end like ANOTHER format ('save dimacs g.gml'):
+        # the format given explicitly decides
+        path = os.path.join(tmpdir(), 'g_%d.%s' % (os.getpid(), case.get('save_ext', save)))
         spec = spec + ['save', save, path]
 
     def body():
@@ -788,7 +790,7 @@ def cases(tier, seed):
                     max_execs=100000)
             else:
                 add('bipartite', ['glrm', L, Rr, m], mode='hash', horizon=60 if not thorough else 100,
-                    max_execs=400000)
+                    max_execs=60000)
         for dg in range(-1, Rr + 2):
             add('bipartite', ['glrd', L, Rr, dg], mode='plain' if L * max(dg, 0) <= 6 else 'hash')
             if L * max(dg, 0) > 4 and not thorough:
@@ -800,7 +802,7 @@ def cases(tier, seed):
                     horizon=400, default='mix', default_seed=seed)
             else:
                 add('bipartite', ['regular', L, Rr, dg], mode='hash',
-                    horizon=90 if not thorough else 200, max_execs=600000)
+                    horizon=90 if not thorough else 200, max_execs=60000)
     add('bipartite', ['glrm', 2, 2])
     add('bipartite', ['glrd', 2, 2, 1, 1])
     add('bipartite', ['regular', 2])
@@ -857,6 +859,15 @@ def cases(tier, seed):
         if fmt != 'dot' or thorough:
             add('simple', ['gnm', 4, 3], save=fmt, mode='plain', max_dev=2, max_execs=300)
             add('simple', ['gnd', 4, 2], save=fmt, mode='plain', max_dev=1, max_execs=300)
+    sfm = ('kthlist', 'gml', 'dimacs', 'dot')
+    bfm = ('kthlist', 'gml', 'matrix', 'dot')
+    for i, fmt in enumerate(sfm):
+        for ext in (sfm[(i + 1) % 4], sfm[(i + 2) % 4], 'txt', 'cnf'):
+            add('simple', ['complete', 3], save=fmt, save_ext=ext)
+            add('dag', ['pyramid', 1], save=fmt, save_ext=ext)
+    for i, fmt in enumerate(bfm):
+        for ext in (bfm[(i + 1) % 4], bfm[(i + 3) % 4], 'graph'):
+            add('bipartite', ['shift', 3, 3, 0, 1], save=fmt, save_ext=ext)
     for fmt in ('kthlist', 'gml', 'matrix', 'dot'):
         add('bipartite', ['glrp', 2, 2, '0.5'], save=fmt, mode='plain')
         add('bipartite', ['glrd', 2, 3, 1], save=fmt, mode='plain')
